@@ -5,6 +5,8 @@ ROOT = os.path.dirname(os.path.dirname(os.path.abspath(__file__)))
 
 CLAIMS = json.load(open(os.path.join(ROOT, 'tools', 'claims.json')))
 
+INTERIM = {'C17': 'claimed in DESIGN.md (partial); the Kani unit is being validated in this session and is not registered yet'}
+
 def not_applicable():
     txt = open(os.path.join(ROOT, 'DESIGN.md')).read()
     sec = txt[txt.index('## 5. Not applicable'):txt.index('## 6.')]
@@ -33,7 +35,7 @@ def main():
     claimed = {c['property_id'] for c in CLAIMS}
     m = {
         'version': 1,
-        'setup_cmd': 'true',
+        'setup_cmd': './tools/setup.sh',
         'hooks': {
             'guard': 'parol_verif',
             'enable': 'no hook is needed: the functions under contract are extracted mechanically from /repo\'s working tree on every run (vx/rsx.py); the guard name is reserved and unused',
@@ -44,11 +46,13 @@ def main():
         'engines': [
             {'name': 'vx-verus', 'path': 'vx/verus_backend.py', 'serves_properties': sorted(c['property_id'] for c in CLAIMS if 'verus' in c['engine']),
              'kind_free_text': 'Verus 0.2026.09.13 (Z3) on real function text extracted from /repo each run, contract clauses inserted from units/*/unit.vx'},
+            {'name': 'vx-native-bounded', 'path': 'vx/native_backend.py', 'serves_properties': ['C12'],
+             'kind_free_text': 'bounded stand-in only: exhaustive native enumeration of a stated small input space against the real crates (path dependency on /repo) for callee contracts the verifiers cannot reach; never counted as proved'},
             {'name': 'vx-kani', 'path': 'vx/kani_backend.py', 'serves_properties': sorted(c['property_id'] for c in CLAIMS if 'kani' in c['engine']),
              'kind_free_text': 'Kani 0.68 / CBMC 6.11 function contracts and full-domain harnesses on verbatim copies of the real source files'},
         ],
         'checks': checks,
-        'not_applicable': [{'property_id': p, 'reason': na.get(p, 'see DESIGN.md section 5')} for p in props if p not in claimed],
+        'not_applicable': [{'property_id': p, 'reason': na.get(p, INTERIM.get(p, 'see DESIGN.md section 5'))} for p in props if p not in claimed],
         'notes': 'Contract-based deductive verification of the real code. exit 0 = all obligations discharged; exit 1 = VIOLATION line(s); exit 2 = UNDECIDED (anchor lost, unsupported construct, resource limit, machinery self-test failed) - never an alarm. Fixed defects are listed in known_findings.json.',
     }
     json.dump(m, open(os.path.join(ROOT, 'MANIFEST.json'), 'w'), indent=1)
